@@ -130,6 +130,10 @@ pub struct Cfg {
     pub slow: u64,
     pub pend: usize,
     pub seed: u64,
+    /// next-outgoing-id both sessions start from (optional key `noi`, default 0)
+    pub noi: u32,
+    /// sizes sweep downwards from `msz` one octet per message, plain data bodies (optional key `sw`)
+    pub sweep: bool,
 }
 
 fn kv<'a>(w: &'a [&'a str], k: &str) -> &'a str {
@@ -185,6 +189,8 @@ pub fn parse(line: &str) -> Cfg {
         slow: num("slow"),
         pend: num("pend") as usize,
         seed: num("seed"),
+        noi: w.iter().find_map(|x| x.strip_prefix("noi=")).and_then(|x| x.parse().ok()).unwrap_or(0),
+        sweep: w.iter().any(|x| *x == "sw=1"),
     }
 }
 
@@ -220,7 +226,8 @@ pub fn line_of(c: &Cfg) -> String {
         c.slow,
         c.pend,
         c.seed
-    )
+    ) + &(if c.noi != 0 { format!(" noi={}", c.noi) } else { String::new() })
+        + if c.sweep { " sw=1" } else { "" }
 }
 
 /* ------------------------------------------------------------------------------------- */
@@ -367,11 +374,13 @@ pub fn gen_msgs(c: &Cfg) -> Vec<Spec> {
             _ => r.below(c.msz as u64 + 1) as usize,
         }
         .min(c.msz);
+        let (kind, size) = if c.sweep { ("data1", c.msz.saturating_sub(idx)) } else { (kind, size) };
         let sections = match r.below(6) {
             0 => 0,
             1 => 63,
             _ => r.below(64),
         };
+        let sections = if c.sweep { 0 } else { sections };
         let mut props = if sections & 8 != 0 { Some(crate::typed::gen_properties(&mut r)) } else { None };
         if let Some(p) = props.as_mut() {
             if r.chance(3, 4) {
@@ -891,11 +900,11 @@ async fn run_async(c: Cfg, specs: Vec<Spec>) -> Obs {
         Err(_) => fail!("accept-conn:timeout"),
     };
     // ---- session ----
-    let sacc = SessionAcceptor::builder().incoming_window(c.liw).outgoing_window(c.low).buffer_size(c.lsb).build();
+    let sacc = SessionAcceptor::builder().incoming_window(c.liw).outgoing_window(c.low).buffer_size(c.lsb).next_outgoing_id(c.noi).build();
     let both = async {
         tokio::join!(
             sacc.accept(&mut lconn),
-            Session::builder().incoming_window(c.ciw).outgoing_window(c.cow).buffer_size(c.sb).begin(&mut cconn)
+            Session::builder().incoming_window(c.ciw).outgoing_window(c.cow).buffer_size(c.sb).next_outgoing_id(c.noi).begin(&mut cconn)
         )
     };
     let (mut lsess, mut csess) = match tokio::time::timeout(step, both).await {
@@ -1499,6 +1508,12 @@ pub fn gen_case(r: &mut Rng, thorough: bool) -> String {
         slow: if rt == 'm' { *r.pick(&[0u64, 0, 3]) } else { *r.pick(&[0u64, 0, 2, 20, 200]) },
         pend: *r.pick(&[0usize, 0, 1, 3, 8, 64]),
         seed: r.below(1 << 32),
+        noi: match r.below(6) {
+            0 => u32::MAX - r.below(40) as u32,
+            1 => u32::MAX / 2 - r.below(20) as u32,
+            _ => 0,
+        },
+        sweep: false,
     };
     line_of(&c)
 }
@@ -1522,6 +1537,16 @@ fn seeds() -> Vec<String> {
     v.push("e2e rt=p dir=sc cmf=1033 lmf=36311 ciw=57 cow=13 liw=5000 low=1 cr=a5 ssm=u rsm=2 aa=1 lag=0 cb=4 sb=1 lb=2 lcb=73 lsb=65535 pipe=4096 ch=m net=2 n=27 msz=136 slow=3 pend=8 seed=4279817143".to_string());
     v.push("e2e rt=p dir=cs cmf=46068 lmf=19705 ciw=4273 cow=38 liw=2 low=53 cr=a5 ssm=u rsm=2 aa=1 lag=0 cb=2 sb=1 lb=65535 lcb=2 lsb=2 pipe=4096 ch=m net=2 n=40 msz=2166 slow=200 pend=8 seed=80209512".to_string());
     v.push("e2e rt=m dir=sc cmf=4096 lmf=600 ciw=1 cow=1 liw=1 low=1 cr=m2.1 ssm=u rsm=2 aa=1 lag=0 cb=1 sb=1 lb=1 lcb=1 lsb=1 pipe=4096 ch=x net=1 n=12 msz=1800 slow=3 pend=1 seed=5".to_string());
+    // every body size in the band just under the frame limit, one octet apart (where a transfer stops fitting one frame),
+    // with delivery-ids below and above 255, in both directions, followed by further traffic
+    let sweep = "e2e rt=p dir=cs cmf=512 lmf=512 ciw=5000 cow=5000 liw=5000 low=5000 cr=a10 ssm=u rsm=1 aa=1 lag=0 cb=65535 sb=65535 lb=65535 lcb=65535 lsb=65535 pipe=65536 ch=l net=0 n=110 msz=520 slow=0 pend=0 seed=11 sw=1";
+    v.push(sweep.to_string());
+    v.push(sweep.replace("dir=cs", "dir=sc"));
+    v.push(sweep.replace("seed=11", "seed=12 noi=250"));
+    v.push(sweep.replace("cmf=512 lmf=512", "cmf=1024 lmf=700").replace("msz=520", "msz=720").replace("seed=11", "seed=13 noi=4294967200"));
+    // transfer-ids crossing the 2^32 wrap
+    v.push("e2e rt=p dir=cs cmf=4096 lmf=4096 ciw=5000 cow=5000 liw=5000 low=5000 cr=a10 ssm=u rsm=1 aa=1 lag=0 cb=65535 sb=65535 lb=65535 lcb=65535 lsb=65535 pipe=65536 ch=l net=0 n=40 msz=300 slow=0 pend=0 seed=14 noi=4294967290".to_string());
+    v.push("e2e rt=p dir=sc cmf=512 lmf=512 ciw=3 cow=4 liw=5 low=2 cr=a3 ssm=m rsm=2 aa=1 lag=0 cb=16 sb=16 lb=16 lcb=16 lsb=16 pipe=4096 ch=m net=1 n=40 msz=1500 slow=0 pend=3 seed=15 noi=4294967280".to_string());
     v
 }
 
